@@ -49,7 +49,7 @@ theorem delconj_recovers (e : Eig ℂ n N) (cpx : Fin N → Bool) (isSmall : ℂ
     rw [← fullV_mulVec_real e cpx _ (zOf_real d0 v0), Matrix.mulVec_mulVec, sp.hUV, Matrix.one_mulVec]
   -- the second sample
   rw [coupledRun_getElem?] at hrun
-  simp only [List.map_cons, List.map_nil, runModal, List.getElem?_cons_succ, List.getElem?_cons_zero,
+  simp only [List.map_cons, List.map_nil, runModal, Memo.get_ofFn, List.getElem?_cons_succ, List.getElem?_cons_zero,
     Option.map_some, one_ne_zero, if_false, Option.some.injEq, Prod.mk.injEq] at hrun
   obtain ⟨hd1, hv1⟩ := hrun
   have hy1 := step_realAt e cpx sp.real isSmall h order1 _ _ _ hy0
@@ -142,7 +142,7 @@ theorem coupled_run_exact_real (e : Eig ℂ n N) (cpx : Fin N → Bool) (isSmall
         match ws, hw with
         | [], hw => simp [runModal] at hw
         | [_], hw => simpa [runModal] using hw
-        | _ :: _ :: _, hw => simpa [runModal] using hw
+        | _ :: _ :: _, hw => simpa [runModal_cons_cons] using hw
       rw [← hd _ _ hyj, hz0]
     | succ j =>
       simp only [Nat.succ_ne_zero, if_false, Prod.mk.injEq] at hs1
